@@ -2,6 +2,8 @@
 Correspondence: random operation histories on the real AllocTracker vs the Lean model, plus the
 accounting oracle evaluated on the implementation's own answers."""
 from vlib import *
+import glob
+import planlib as pl
 
 MODULES = ["JxlModel.Props.C13"]
 W = 2 ** 64
@@ -138,9 +140,68 @@ def run(ctx):
         if d is not None:
             ctx.failed_obligations.append(
                 f"correspondence AllocTracker vs Jxl.Alloc.step differs at op {ops[d]!r}: impl {io[d]!r} model {mo[d]!r}")
+    end_to_end(ctx, ok)
     ctx.assumptions += [
         "usize = 64 bit; histories in which expand_limit wraps the limit past usize::MAX are excluded (NoWrap)",
         "atomic read-modify-write operations are linearizable, so concurrent histories are sequences",
         "the decoder's own use of the tracker (every handle dropped on every error path) is exercised "
         "by the end-to-end limit sweep below, not proved",
     ]
+
+
+def end_to_end(ctx, ok):
+    """limit sweep through the whole decoder: exhaustion is an Err, the tracked peak stays within the
+    limit, and after dropping the image and every render the full budget is back (hook H1)"""
+    ctx.cargo_build(["c13e"])
+    rng = ctx.rng
+    streams = [("fixture", open(REPO + "/crates/jxl-oxide-tests/tests/cms/cmyk_layers.jxl", "rb").read())]
+    for f in sorted(glob.glob(REPO + "/crates/jxl-oxide-tests/tests/fuzz_findings/*.fuzz"))[: (12 if ctx.quick else 61)]:
+        streams.append(("hostile:" + os.path.basename(f), open(f, "rb").read()))
+    if ok:
+        plans = []
+        for i in range(8 if ctx.quick else 80):
+            img, fr = pl.gen_modular_image(rng, {"multi_group": True} if i % 4 == 3 else None)
+            plans.append(pl.plan_line(img, fr))
+        for e in run_lines_robust([MODEL_EXE, "enc"], plans, per_line_timeout=60):
+            r = pl.parse_enc_output(e) if e and e.startswith("ok") else None
+            if r:
+                streams.append(("encoder", bytes.fromhex(r[0])))
+    ample = 1 << 30
+    clean = run_lines_robust([ctx.harness_bin("c13e")], [f"sweep {d.hex()} {ample}" for _, d in streams], per_line_timeout=60)
+    lines, meta = [], []
+    for (label, data), c in zip(streams, clean):
+        m = re.match(r"(\S+) peak=(\d+) left=(\d+) outstanding=(\d+) allocs=(\d+)", c or "")
+        if not m:
+            ctx.violation("decoder-panicked-or-hung-under-ample-limit", (c or "")[:300],
+                          {"bytes_hex": data.hex(), "limit": ample}, key="c13e:" + (c or "crash").split()[0][:60])
+            continue
+        peak, allocs = int(m.group(2)), int(m.group(5))
+        limits = {0, 1, peak - 1, peak, peak + 1, peak // 2, peak // 3, 2 * peak, ample}
+        limits |= {rng.randint(0, max(1, peak)) for _ in range(6 if ctx.quick else 40)}
+        for l in sorted(x for x in limits if x >= 0):
+            lines.append(f"sweep {data.hex()} {l}"); meta.append((label, data, l, None, peak))
+        ks = sorted({0, 1, allocs // 2, max(0, allocs - 1)} | {rng.randrange(max(1, allocs)) for _ in range(6 if ctx.quick else 60)})
+        for k in ks:
+            lines.append(f"sweep {data.hex()} {ample} {k}"); meta.append((label, data, ample, k, peak))
+    outs = run_lines_robust([ctx.harness_bin("c13e")], lines, per_line_timeout=60, batch=50)
+    for (label, data, limit, k, peak), o in zip(meta, outs):
+        o = o or "crash"
+        ctx.case(("e2e", data, limit, k), nontrivial=True)
+        ctx.count("e2e:" + label.split(":")[0])
+        replay = {"bytes_hex": data.hex(), "limit": limit, "fail_from": k,
+                  "how": "echo 'sweep <hex> <limit> [fail_from]' | harness/target/debug/c13e"}
+        m = re.match(r"(\S+) peak=(\d+) left=(\d+) outstanding=(\d+) allocs=(\d+)", o)
+        if not m:
+            ctx.violation("exhaustion-not-an-error", o[:300], replay, key="c13e:" + o.split()[0][:60])
+            continue
+        outcome, pk, left, outst = m.group(1), int(m.group(2)), int(m.group(3)), int(m.group(4))
+        ctx.count("e2e-outcome:" + outcome.split("_")[0])
+        if outcome.startswith("panic"):
+            mm = re.match(r"panic_([^_]+\.rs:\d+)", outcome)
+            ctx.violation("exhaustion-panicked", outcome[:300], replay, key="panic:" + (mm.group(1) if mm else "?"))
+        elif pk > limit:
+            ctx.violation("tracked-total-exceeded-limit", f"peak {pk} > limit {limit}", replay, key="c13e:peak")
+        elif outst != 0 or left != limit:
+            ctx.violation("budget-not-restored-after-drop", f"left {left} of {limit}, outstanding {outst}", replay, key="c13e:leak")
+        elif k is None and limit >= ample and not outcome.startswith("ok") and label in ("fixture", "encoder"):
+            ctx.violation("valid-image-failed-under-ample-limit", outcome, replay, key="c13e:ample")
